@@ -515,6 +515,11 @@ func TestVerif_C30(t *testing.T) {
 				if acc, ev := mon.run(who, c); ev && !acc {
 					r.Nontrivial(fmt.Sprintf("wr%s|%d", baseKey, i))
 				}
+				// and on the path without a clock-skew limit (how relayers check the tokens of remote consumers)
+				c0 := &vC30Case{class: "wrong-recipient-no-skew-limit", msg: msg, recipient: y, timeout: 0, clock: -1, legit: true, sender: sender, base: baseKey}
+				if acc, ev := mon.run(who, c0); ev && !acc {
+					r.Nontrivial(fmt.Sprintf("wr0%s|%d", baseKey, i))
+				}
 			}
 
 			// -- the receiver's own message
